@@ -41,7 +41,7 @@ CHECKS["C03"] = dict(
     rule=_UDP_GEN + "Non-trivial = an association opened by a key that is not first in a list of >=2 keys, or an invalid datagram on a live association, "
          "or an IPv6 target/sender, or a reply from a never-contacted sender, or payload >=1472 bytes. Distinct = canonical case JSON.",
     assumptions=["loopback UDP: no loss/reordering in practice; a lost expected datagram is retried once before it counts", "AEAD strength assumed"],
-    units=[unit("props", ["UDP", "UDPExpiry"], "C03")],
+    units=[unit("props", ["UDP", "UDPExpiry", "Shared"], "C03")],
 )
 CHECKS["C04"] = dict(
     level="exploration",
@@ -107,9 +107,10 @@ CHECKS["C08"] = dict(
     rule="rapid-generated runs of 2..40 (thorough 300) relayed connections over key lists with all four ciphers, then 1..12 reflections of recorded server->client streams presented as client streams "
          "(verbatim / truncated at 50..120 / extended), replay cache on and off. All server salts pairwise distinct; reflections for salts >= 20 bytes must end ERR_REPLAY_SERVER with no dial, no bytes, probe report. "
          "(Concurrent) 2..16 goroutines relay 20..300 connections each under the same 1..3 keys at once (one salt generator serves all connections of a key); every recorded response must decrypt, carry a distinct salt and be refused when reflected. "
+         "(LongRun) 3000..9000 successive relayed connections of one process under 1..2 keys: all response salts pairwise distinct. "
          "Non-trivial = at least one reflection under a cipher with a salt of >= 20 bytes. Distinct = canonical case JSON.",
     assumptions=["aes-128-gcm (16-byte salt) is exempt as the statement says", "in-memory connections"],
-    units=[unit("props", ["Salts", "Concurrent"], "C08", crash_is_violation=True)],
+    units=[unit("props", ["Salts", "Concurrent", "LongRun"], "C08", crash_is_violation=True)],
 )
 CHECKS["C20"] = dict(
     level="exploration",
@@ -121,7 +122,7 @@ CHECKS["C20"] = dict(
          "so a label can depend on nothing but the client's own address. Non-trivial = non-plain address form, non-global or mapped address, or non-hit database (Class); history with >=2 operations (Expo); "
          ">=2 global IPv6 clients or >=3 label groups (Multi).",
     assumptions=["'non-global' = loopback/unspecified/multicast/link-local/broadcast (the code's and existing tests' meaning; RFC1918 is looked up)", "zoned addresses may be XA or XL"],
-    units=[unit("props", ["Class", "Expo", "Multi"], "C20")],
+    units=[unit("props", ["Class", "Expo", "Multi", "Concurrent"], "C20")],
 )
 
 CHECKS["C17"] = dict(
@@ -266,9 +267,10 @@ CHECKS["C08"] = dict(
     rule="rapid-generated runs of 2..40 (thorough 300) relayed connections over key lists with all four ciphers, then 1..12 reflections of recorded server->client streams presented as client streams "
          "(verbatim / truncated at 50..120 / extended), replay cache on and off. All server salts pairwise distinct; reflections for salts >= 20 bytes must end ERR_REPLAY_SERVER with no dial, no bytes, probe report. "
          "(Concurrent) 2..16 goroutines relay 20..300 connections each under the same 1..3 keys at once (one salt generator serves all connections of a key); every recorded response must decrypt, carry a distinct salt and be refused when reflected. "
+         "(LongRun) 3000..9000 successive relayed connections of one process under 1..2 keys: all response salts pairwise distinct. "
          "Non-trivial = at least one reflection under a cipher with a salt of >= 20 bytes. Distinct = canonical case JSON.",
     assumptions=["aes-128-gcm (16-byte salt) is exempt as the statement says", "in-memory connections"],
-    units=[unit("props", ["Salts", "Concurrent"], "C08", crash_is_violation=True)],
+    units=[unit("props", ["Salts", "Concurrent", "LongRun"], "C08", crash_is_violation=True)],
 )
 CHECKS["C20"] = dict(
     level="exploration",
@@ -280,7 +282,7 @@ CHECKS["C20"] = dict(
          "so a label can depend on nothing but the client's own address. Non-trivial = non-plain address form, non-global or mapped address, or non-hit database (Class); history with >=2 operations (Expo); "
          ">=2 global IPv6 clients or >=3 label groups (Multi).",
     assumptions=["'non-global' = loopback/unspecified/multicast/link-local/broadcast (the code's and existing tests' meaning; RFC1918 is looked up)", "zoned addresses may be XA or XL"],
-    units=[unit("props", ["Class", "Expo", "Multi"], "C20")],
+    units=[unit("props", ["Class", "Expo", "Multi", "Concurrent"], "C20")],
 )
 
 CHECKS["C17"] = dict(
